@@ -122,15 +122,36 @@ def self_struct(sim, st, fn, gargs, conf, list_len=None):
     return unflat(sim, sty, list(fields)), names
 
 
-def run_update(sim, fn, gargs, cat, self_val):
-    st = S.State()
-    oid = st.new_obj("self", self_val)
-    st.labels[oid] = "self"
+def same_err(sim, st, got, name="e0"):
+    """got is the input's error `name`, possibly rebuilt variant by variant (a derived Clone) under the path condition of st"""
+    if got == Sym(name):
+        return True
+    ety = getattr(got, "ty", None)
+    if ety is None:
+        return False
+    try:
+        return sim.final_value(st, got) == sim.final_value(st, Sym(name, ety))
+    except S.Unsupported:
+        return False
+
+
+def run_update(sim, fn, gargs, cat, self_val, st=None, oid=None, tag="0"):
+    if st is None:
+        st = S.State()
+        oid = st.new_obj("self", self_val)
+        st.labels[oid] = "self"
+    else:
+        st = st.copy()
+        st.frames = []
+        st.effects = []
+        st.oracle = {}   # a new round: the input may return something new
+        if self_val is not None:
+            st.mem[oid] = self_val
     a0 = Ref(Ptr(oid), True)
     assign = {}
 
     def hook(sim_, st_, label, method, args, ret_ty, ver):
-        return K.build_output(sim_, ret_ty, cat, "0")
+        return K.build_output(sim_, ret_ty, cat, tag)
     old = sim.oracle_hook
     sim.oracle_hook = hook
     leaves = sim.run(fn, gargs, [a0], st)
@@ -147,6 +168,23 @@ def run_get_after(sim, getfn, gargs, leaf, oid):
     ls = sim.run(getfn, gargs, [Ref(Ptr(oid), False)], st)
     sim.oracle_hook = old
     return ls
+
+
+def behaviour(sim, up, get, gargs, ggargs, st, oid, self_val):
+    """One-step behaviour of the stream state `self_val` (None: the state in st): for each input category, the set of
+    (path, update's return, what get() then returns, successor state)."""
+    out = {}
+    for cat in ("E", "N", "S"):
+        o = set()
+        ls, _ = run_update(sim, up, gargs, cat, self_val, st=st, oid=oid, tag="1")
+        for l in ls:
+            if l.kind != "return":
+                o.add((repr(l.pc), l.kind, str(l.info.get("msg")), ""))
+                continue
+            gets = sorted(repr(sim.final_value(g.state, g.value)) if g.kind == "return" else g.kind for g in run_get_after(sim, get, ggargs, l, oid))
+            o.add((repr(l.pc), repr(sim.final_value(l.state, l.value)), repr(gets), repr(sim.final_value(l.state, l.state.mem[oid]))))
+        out[cat] = o
+    return out
 
 
 def constructor_state(sim, prog, name, self_ty_str):
@@ -207,7 +245,7 @@ def check_stream(chk, prog, sim, name, conf):
                     ret = K.classify_output(sim, stl, leaf.value)
                     e0 = Sym("e0")
                     # ---- O1 (update's own return)
-                    if ret and ret[0] == "E" and not (cat == "E" and ret[1] == e0):
+                    if ret and ret[0] == "E" and not (cat == "E" and same_err(sim, stl, ret[1])):
                         chk.violation("C05.O1", "%s:update-ret:in=%s" % (tag, cat), "%s::update returns Err(%r) although the input returned %s" % (tag, ret[1], cat),
                                       fn=up["pretty"], file=loc(up["span"]), path=leaf.pc)
                         bad.add(keys["O1"])
@@ -222,13 +260,38 @@ def check_stream(chk, prog, sim, name, conf):
                                 bad.add(keys["O1"])
                             continue
                         g = K.classify_output(sim, gl.state, gl.value)
-                        if g and g[0] == "E" and not (cat == "E" and g[1] == e0):
+                        if g and g[0] == "E" and not (cat == "E" and same_err(sim, gl.state, g[1])):
                             pcs = [p for p in gl.state.pc]
                             chk.violation("C05.O1", "%s:stale-error:in=%s" % (tag, cat),
                                           "%s: after an update whose input returned %s, get() returns Err(%r) (a stale error) on pre-state path %s"
                                           % (tag, {"E": "Err(e0)", "N": "Ok(None)", "S": "a present sample"}[cat], g[1], pcs),
                                           fn=up["pretty"], file=loc(up["span"]), path=pcs)
                             bad.add(keys["O1"])
+                    # the representation-independent fallback of O2/O3: two states are interchangeable when, for every input
+                    # category, update returns the same, get() then returns the same and the successor states are identical
+                    equiv_cache = {}
+
+                    def interchangeable(which):
+                        if which not in equiv_cache:
+                            svf_ = flat(sim, None, sim.final_value(stl, sv))
+                            if which == "fresh":
+                                fs = []
+                                for i_, (n_, t_) in enumerate(names):
+                                    if is_input_field(t_) or is_adt(t_, "SettableData") or depends_on_args(s0.fields[i_]):
+                                        fs.append(svf_.fields[i_])
+                                    else:
+                                        fs.append(s0.fields[i_] if not is_adt(t_, "VecDeque") else M.mk_list([], t_))
+                                other = unflat(sim, sv.ty, fs)
+                            else:
+                                other = sim.final_value(stl, sv)
+                            try:
+                                a = behaviour(sim, up, get, gargs, ggargs, stl, oid, None)
+                                b = behaviour(sim, up, get, gargs, ggargs, stl, oid, other)
+                                chk.evaluated(sum(len(x) for x in a.values()) + sum(len(x) for x in b.values()))
+                                equiv_cache[which] = (a == b)
+                            except S.Unsupported:
+                                equiv_cache[which] = False
+                        return equiv_cache[which]
                     # ---- O2 reset = fresh
                     if cat in conf["reset"]:
                         for i, (n, t) in enumerate(names):
@@ -241,11 +304,11 @@ def check_stream(chk, prog, sim, name, conf):
                             if i in cache_idx:
                                 okc = (isinstance(pf, Enum) and ((pf.vname == "Ok" and isinstance(pf.fields[0], Enum) and pf.fields[0].vname == "None")
                                                                  or (cat == "E" and pf.vname == "Err" and pf.fields[0] == e0)))
-                                if not okc:
+                                if not okc and not interchangeable("fresh"):
                                     chk.violation("C05.O2", "%s:reset-cache:in=%s" % (tag, cat), "%s: after reset event %s the cache is %r, expected Ok(None)%s"
                                                   % (tag, cat, pf, " or Err(e0)" if cat == "E" else ""), fn=up["pretty"], file=loc(up["span"]), path=leaf.pc)
                                     bad.add(keys["O2"])
-                            elif pf != s0f:
+                            elif pf != s0f and not interchangeable("fresh"):
                                 chk.violation("C05.O2", "%s:reset-history:%s:in=%s" % (tag, n, cat),
                                               "%s: reset event %s leaves history field `%s` = %r, a fresh stream has %r" % (tag, cat, n, pf, s0f),
                                               fn=up["pretty"], file=loc(up["span"]), path=leaf.pc)
@@ -261,7 +324,7 @@ def check_stream(chk, prog, sim, name, conf):
                                 okc = pre_err and isinstance(pf, Enum) and pf.vname == "Ok" and isinstance(pf.fields[0], Enum) and pf.fields[0].vname == "None"
                             else:
                                 okc = pre_err and post.fields[i] == s0.fields[i]
-                            if not okc:
+                            if not okc and not interchangeable("pre"):
                                 chk.violation("C05.O3", "%s:absent-changes:%s" % (tag, n), "%s: an absent sample changes field `%s` from %r to %r"
                                               % (tag, n, pre.fields[i], post.fields[i]), fn=up["pretty"], file=loc(up["span"]), path=leaf.pc)
                                 bad.add(keys["O3"])
